@@ -39,15 +39,34 @@ package backend
 //@   modifies b.results, anyelems(b.results)
 //@   props C19
 //@
-//@ // the worker goroutine: needs the backend ready and holds no lock
+//@ // The worker pool. `task` (the pool of free slots) and `errs` are closed by
+//@ // the closer goroutine ($2) once wg.Wait() has returned; a worker ($1) owns
+//@ // one Add unit of wg from its start until its wg.Done(). Sending on a channel
+//@ // that may already be closed panics, so every send of a worker must come
+//@ // before its Done (closeguard: the sender must still own its unit).
 //@ func (*ClassifierBackend).ClassifyLicenses$1
+//@   holds wgtok(&wg) 1
 //@   requires b != nil && b.classifier != nil && readyClassifier(b.classifier) && held(&b.mu) == 0
+//@   requires wgtok(&wg) == 1 && mayclose(task) == 0 && mayclose(errs) == 0 && wgst(&wg) == 0
 //@   modifies b.results, anyelems(b.results)
 //@   props C19
 //@
+//@ // the closer: the only goroutine that may Wait and close
+//@ func (*ClassifierBackend).ClassifyLicenses$2
+//@   holds wgst(&wg) 2
+//@   holds mayclose(task) 1
+//@   holds mayclose(errs) 1
+//@   requires wgst(&wg) == 2 && mayclose(task) == 1 && mayclose(errs) == 1 && task != errs
+//@   modifies nothing
+//@   props C19
+//@
 //@ func (*ClassifierBackend).ClassifyLicenses
+//@   closeguard task wg
+//@   closeguard errs wg
 //@   requires b != nil && b.classifier != nil && readyClassifier(b.classifier) && held(&b.mu) == 0
+//@   loop 1 invariant mayclose(task) == 1
 //@   loop 2 invariant b != nil && b.classifier != nil && readyClassifier(b.classifier) && held(&b.mu) == 0
+//@   loop 2 invariant wgtok(&wg) == 0 && wgst(&wg) == 1 && mayclose(task) == 1 && mayclose(errs) == 1 && task != errs
 //@   props C19
 //@
 //@ func (*ClassifierBackend).GetResults
